@@ -853,6 +853,11 @@ def main():
         files["Slot.lean"] = text
         done += d7
         failed += f7
+        # server.cpp: what incomingConnection() does with a new connection
+        text, d8, f8 = cxx2lean_qt.translate_srv(repo, exp)
+        files["Srv.lean"] = text
+        done += d8
+        failed += f8
         # proxysocket.cpp: the upstream-side slots and the buffering slot, over the model's Proxy.St
         text, d4, f4 = cxx2lean_qt.translate_proxy(repo, exp)
         files["Proxy.lean"] = text
